@@ -115,5 +115,6 @@ struct Res
     uint64_t cnt; // find_with_use_count: the count
     size_t   n;   // clean_expired_values / dynamically_age: the returned count
     size_t   size, cap;
+    size_t   idx_n; // number of entries in the key index (what lookups consult), read after the call
     bool     empty;
 };
